@@ -34,7 +34,14 @@ ASSUMPTIONS = [
 ]
 
 NAN = float("nan")
-FUNCS = ["sum", "nanmax", "count", "nanmean", "var", "argmax", "nanargmin", "nanfirst", "first", "median", "any", "nanprod"]
+FUNCS = ["sum", "nanmax", "count", "nanmean", "var", "argmax", "nanargmin", "nanfirst", "first", "median", "any", "nanprod", "quantile1"]
+# "quantile1": func="quantile" with a vector q of length one (a new leading axis of length 1)
+
+
+def func_kw(func):
+    if func == "quantile1":
+        return dict(func="quantile", finalize_kwargs=dict(q=[0.5]))
+    return dict(func=func)
 ENGINES = [None, "numpy", "flox", "numbagg", "numba"]
 METHODS = [None, "map-reduce", "cohorts", "blockwise"]
 REINDEX = [None, True, False]
@@ -45,6 +52,7 @@ LAYOUTS = {
     "1d-sorted": (np.array([0.0, 0.0, 1.0, 1.0, 2.0, 2.0]), None, [((6,),), ((2, 2, 2),), ((3, 3),)]),
     "1d-9blocks": (np.array([0.0, 1.0, 0.0, 1.0, 0.0, 1.0, 0.0, 1.0, 2.0]), None, [((1,) * 9,)]),
     "1d-none-present": (np.array([7.0, 8.0, 7.0, 8.0, 7.0, 8.0]), None, [((6,),), ((2, 2, 2),)]),
+    "1d-all-missing": (np.array([NAN] * 6), None, [((6,),), ((2, 2, 2),)]),  # every label missing: no group at all
     # labels 0 and 1 share three of their four blocks (containment 0.75): the planner merges them into one cohort
     "1d-merged-cohorts": (np.array([0.0, 0, 0, 1, 0, 1, 0, 1, 1, 1, 2, 2, 2, 2, 3, 3, 3, 3, 3, 3]), None, [((2,) * 10,)]),
     "2d": (np.array([[0.0, 1.0, 0.0], [1.0, NAN, 2.0]]), None, [((2,), (3,)), ((1, 1), (3,)), ((2,), (1, 2)), ((1, 1), (1, 1, 1))]),
@@ -89,12 +97,12 @@ def classify(out):
 def reference(func, V, labels, axis, expected, fill, cache):
     key = (func, axis, expected, fill if fill == fill else "nan")
     if key not in cache:
-        kw = dict(func=func, engine="numpy", axis=axis)
+        kw = dict(engine="numpy", axis=axis, **func_kw(func))
         if expected:
             kw["expected_groups"] = np.array([0.0, 1.0, 2.0, 3.0])
         if fill is not None:
             kw["fill_value"] = fill
-        if func == "median":
+        if func in ("median", "quantile1"):
             kw["engine"] = "flox"
         cache[key] = e1.call_reduce(V, labels, **kw)
     return cache[key]
@@ -122,8 +130,20 @@ def run_shard(shard):
             fill_ = fill
         outcomes = {}
         answers = {}
+        # the same request on the in-memory array (once per cell): it must not fail internally either
+        nref = len(refcache)
+        ref0 = reference(func, V, labels, axis, expected, fill_, refcache)
+        if len(refcache) > nref:
+            res.evaluations += 1
+            res.transitions += 1
+            if ref0.kind == "error" or (ref0.kind == "refused" and ref0.origin != "flox"):
+                res.outcomes["INTERNAL"] += 1
+                res.violate("internal-error", dict(func=func, engine="numpy" if func not in ("median", "quantile1") else "flox", layout=layout, eager=True, expected=expected,
+                                                   fill=None if fill_ is None else (fill_ if fill_ == fill_ else "nan")),
+                            ref0.brief(), "ValueError / NotImplementedError / ImportError, or a result",
+                            tags=dict(func=func, engine="eager", layout=layout, expected=expected, kind="internal", exc=ref0.exc, where=ref0.where, eager=True), size=9)
         for method in METHODS:
-            kw = dict(func=func, engine=engine, method=method, reindex=reindex, axis=axis)
+            kw = dict(engine=engine, method=method, reindex=reindex, axis=axis, **func_kw(func))
             if expected:
                 kw["expected_groups"] = np.array([0.0, 1.0, 2.0, 3.0])
             if fill_ is not None:
@@ -208,12 +228,18 @@ def replay(payload):
     c = payload["case"]
     labels, axis, grids = LAYOUTS[c["layout"]]
     V = values_for((2,) + labels.shape, c["func"])
+    if c.get("eager"):
+        fill = unjson_float(c["fill"]) if c.get("fill") is not None else None
+        out = reference(c["func"], V, labels, axis, c["expected"], fill, {})
+        if out.kind == "error" or (out.kind == "refused" and out.origin != "flox"):
+            res.violate("internal-error", c, out.brief(), "clean refusal or result", tags=dict(kind="internal", exc=out.exc), size=9)
+        return res
     grid = tuple(tuple(g) for g in c["grid"])
     fill = unjson_float(c["fill"]) if c.get("fill") is not None else None
     methods = [c["method"]] if "method" in c else [None, "map-reduce"]
     outs = {}
     for m in methods:
-        kw = dict(func=c["func"], engine=c["engine"], method=m, reindex=c["reindex"], axis=axis)
+        kw = dict(engine=c["engine"], method=m, reindex=c["reindex"], axis=axis, **func_kw(c["func"]))
         if c["expected"]:
             kw["expected_groups"] = np.array([0.0, 1.0, 2.0, 3.0])
         if fill is not None:
